@@ -8,7 +8,7 @@ func checkC03(c *Ctx, r *Report) {
 		"T-DELEG: every reader-path decoder that delegates calls the SR decoder registered for the same box types with (hdr, startPos, NewFixedSliceReader(readBoxBody(r, hdr))); " +
 		"T-WRAP: every Encode(w) of wrapper shape allocates exactly int(recv.Size()), calls recv.EncodeSW on it, checks the error and writes sw.Bytes(); " +
 		"W-DD / W-EE: separately written decoder pairs and non-wrapper encoder pairs have the same wire layout per configuration (layout engine). " +
-		"Decides structural agreement of the sibling paths; does not decide numeric equality of recorded positions or of error texts."
+		"S-CLONE: the `switch boxType` statement (mdat ordering rules, second-stage senc parsing of moof boxes) is identical in DecodeFile and DecodeFileSR after normalisation. Decides structural agreement of the sibling paths; does not decide numeric equality of recorded positions or of error texts."
 	r.Assume("box types returned through dynamic calls are not resolved (none today)")
 	dec, decSR := ruleTREG(c, r)
 	sep := ruleTDELEG(c, r, dec, decSR)
@@ -16,4 +16,5 @@ func checkC03(c *Ctx, r *Report) {
 	ruleWDD(c, r, sep, decSR, dec)
 	ruleWEE(c, r, nonWrap)
 	ruleSMEMBEREnc(c, r)
+	ruleSCloneSwitch(c, r, "mp4", "DecodeFile", "DecodeFileSR", "boxType")
 }
